@@ -39,6 +39,21 @@ fn flush(t: &Tally, out: &mut Out) {
 const PWRAPS: [(&str, &str); 7] = [("", ""), ("(", ")"), ("\"", "\""), ("'", "."), ("*[", "]!"), ("", ","), ("-", "?")];
 const BWRAPS: [(&str, &str); 7] = [("", ""), ("(", ")"), ("\"", "\""), ("'", "।"), ("(", ":"), ("", ","), ("-", "?")];
 
+/// Type `text` and end the word either by finish or by committing the first emoji of the list (so that what such a
+/// commit leaves behind would show in the next table entry).
+fn type_end(o: &PhonOracle, sess: &Sess, text: &str, commit_emoji: bool) -> Result<riti::suggestion::Suggestion, Panic> {
+    let s = sess.type_text_protocol(text)?.expect("non-empty text");
+    if commit_emoji && !s.is_lonely() {
+        match s.get_suggestions().iter().position(|x| o.contains_emoji(x)) {
+            Some(i) => sess.commit(i)?,
+            None => sess.finish()?,
+        }
+    } else {
+        sess.finish()?;
+    }
+    Ok(s)
+}
+
 fn list_of(s: &riti::suggestion::Suggestion) -> Vec<String> {
     if s.is_lonely() {
         vec![]
@@ -73,7 +88,7 @@ fn phon_emoticon(o: &PhonOracle, c: &PCtx, e: &str, out: &mut Out, t: &mut Tally
     for sess in [&c.plain, &c.eng_sq] {
         let case = || json!({"method": "phonetic", "kind": "emoticon", "cfg": sess.spec.to_json(), "text": e});
         t.events += e.len() as u64;
-        let list = match type_finish(sess, e) {
+        let list = match type_end(o, sess, e, t.emoticons_phonetic % 2 == 1) {
             Ok(s) => list_of(&s),
             Err(p) => {
                 let _ = sess.finish();
@@ -119,7 +134,7 @@ fn phon_name(o: &PhonOracle, c: &PCtx, name: &str, wrap: (&str, &str), out: &mut
         let spec = sess.spec;
         let case = || json!({"method": "phonetic", "kind": "name", "cfg": spec.to_json(), "name": name, "text": text});
         t.events += 2 * text.len() as u64;
-        let (list, free) = match (type_finish(sess, &text), type_finish(ansi, &text)) {
+        let (list, free) = match (type_end(o, sess, &text, t.names_phonetic % 2 == 1), type_finish(ansi, &text)) {
             (Ok(a), Ok(b)) => (list_of(&a), list_of(&b)),
             (ra, rb) => {
                 let _ = sess.finish();
@@ -241,6 +256,7 @@ fn fixed_name(o: &PhonOracle, rev: &std::collections::HashMap<char, FKey>, plain
             c["offered_emoji"] = json!(list.iter().filter(|x| wrapped.contains(x)).collect::<Vec<_>>());
             c["expected_emoji"] = json!(wrapped);
             c["list_len"] = json!(list.len());
+            c["english"] = json!(spec.english());
             out.violation("name-offers-all-emoji", format!("c18:name:fixed:{name}:{}", if why.starts_with("missing") { "missing" } else { "order" }), c,
                           format!("all of {wrapped:?} offered, in table order, wrapped like the word"), format!("{why}; list {list:?}"));
         }
@@ -297,7 +313,7 @@ impl Prop for C18 {
         "C18"
     }
     fn rule(&self) -> String {
-        "complete table walks: all typeable emoticons of the emojicon table in phonetic mode (2 option sets) and in fixed mode (Probhat); all English emoji names in phonetic mode, bare and in 6 wrappings (all 7 in thorough; bare + 2 rotating in quick), \
+        "complete table walks: all typeable emoticons of the emojicon table in phonetic mode (2 option sets; words ended alternately by finish and by committing the first emoji) and in fixed mode (Probhat); all English emoji names in phonetic mode, bare and in 6 wrappings (all 7 in thorough; bare + 2 rotating in quick), \
          each in 2 option sets (plain; English + smart quotes) and compared with the ANSI (emoji-free) list of the same text; all Bengali emoji names in fixed mode through Probhat and the synthetic layout, same wrappings and option sets. \
          distinct_nontrivial = distinct (method, kind, text, options) table entries judged."
             .into()
@@ -328,7 +344,7 @@ impl Prop for C18 {
             // fixed mode: the list is capped at nine, so emoji beyond the cap are cut (the offered ones are the first of the table, in order)
             "fixed-cap-cuts-emoji" => {
                 let (Some(off), Some(exp), Some(len)) = (v.case.get("offered_emoji").and_then(|x| x.as_array()), v.case.get("expected_emoji").and_then(|x| x.as_array()), v.case.get("list_len").and_then(|x| x.as_u64())) else { return false };
-                v.clause == "name-offers-all-emoji" && len == 9 && !off.is_empty() && off.len() < exp.len() && exp[..off.len()] == off[..] && exp.len() + 1 > 9 - usize::from(v.sig.contains("eng"))
+                v.clause == "name-offers-all-emoji" && len == 9 && !off.is_empty() && off.len() < exp.len() && exp[..off.len()] == off[..] && exp.len() + 1 > 9 - usize::from(v.case.get("english").and_then(|e| e.as_bool()).unwrap_or(false))
             }
             _ => false,
         }
